@@ -6,8 +6,8 @@
    range-subsumption rewrite, bounded_int_constrain, bounded_int_trim_min/max) and
    TypeRangeNormalizer::normalized.  What the folder knows about an input variable is
    [Some v] (as_int: ConstValue::Int or NonZero(Int)) or [None].
-   Not modelled: the inc/dec rewrite for `x +- 1` (replaces the libfunc by a corelib function, no
-   arithmetic), arrays, boxes, snapshots, struct/enum plumbing, specialization,
+   The inc/dec rewrite for `x +- 1` replaces the libfunc by a corelib function (Rt.num_inc/num_dec).
+   Not modelled: arrays, boxes, snapshots, struct/enum plumbing, specialization,
    storage_base_address_from_felt252.
    Model file: definitions only. *)
 From C07 Require Export Rt ConstEval.
@@ -113,7 +113,8 @@ Inductive mout :=
 | MArm (arm : nat) (v : option Z)   (* goto arms[arm]; its variable (if any) := const v *)
 | MArmVar (arm : nat) (i : nat)     (* goto arms[arm]; its variable := inputs[i] *)
 | MArmUpcast (arm : nat)            (* push upcast(inputs[0]) into the arm variable; goto arms[arm] *)
-| MIsZeroOf (i : nat).              (* match T_is_zero(inputs[i]) { Zero => old arms[1], NonZero => old arms[0] } *)
+| MIsZeroOf (i : nat)               (* match T_is_zero(inputs[i]) { Zero => old arms[1], NonZero => old arms[0] } *)
+| MIncDec (inc sgn : bool) (T : ity). (* match core::internal::num::T_inc / T_dec(inputs[0]) with the same arms *)
 
 Definition is_add (f : lf_match) := match f with UAdd _ | IAdd _ => true | _ => false end.
 Definition is_signed_f (f : lf_match) := match f with IAdd _ | ISub _ => true | _ => false end.
@@ -132,8 +133,13 @@ Definition fold_overflowing (f : lf_match) (T : ity) (lhs rhs : known) : option 
       Some (MArm arm (Some v))
   | _, _ =>
       if is_zero_k rhs && negb (is_diff f) then Some (MArmVar 0 0)
-      (* rhs = 1: inc/dec rewrite, not modelled (no arithmetic is done by the folder) *)
-      else if is_one_k rhs && negb (is_diff f) then None
+      (* rhs = 1: the libfunc is replaced by the corelib helper T_inc / T_dec (type_info: u8..u128,
+         i8..i128; u256 has none) *)
+      else if is_one_k rhs && negb (is_diff f) then
+        match T with
+        | U256 | Felt => None
+        | _ => Some (MIncDec (is_add f) (is_signed_f f) T)
+        end
       else if is_zero_k lhs && is_add f then Some (MArmVar 0 1)
       else None
   end.
